@@ -297,6 +297,39 @@ def expected : List (String × List Entry) := [
     ⟨"index:inputDescriptorMappingObjects[i]", .sampled "pe.match+validate (the indexing loop of Search is replayed on Match results; the discovery model is C16)"⟩,
     ⟨"indexw:credentialMap[inputDescriptorMappingObjects[i].Id]", .sampled "pe.match+validate (the indexing loop of Search is replayed on Match results; the discovery model is C16)"⟩,
     ⟨"index:submissionVCs[i]", .sampled "pe.match+validate (the indexing loop of Search is replayed on Match results; the discovery model is C16)"⟩]),
+  ("discovery/module.go:Module.Register", [
+    ⟨"index:m.serverDefinitions[serviceID]", .sampled "discovery.Register (definitions with optional members absent × registration/retraction presentations with undeterminable signer, missing id/claims)"⟩,
+    ⟨"index:m.allDefinitions[serviceID]", .sampled "discovery.Register (definitions with optional members absent × registration/retraction presentations with undeterminable signer, missing id/claims)"⟩,
+    ⟨"index:m.allDefinitions[serviceID]", .sampled "discovery.Register (definitions with optional members absent × registration/retraction presentations with undeterminable signer, missing id/claims)"⟩,
+    ⟨"deref:*record", .sampled "discovery.Register (definitions with optional members absent × registration/retraction presentations with undeterminable signer, missing id/claims)"⟩,
+    ⟨"rec:m.httpClient.Register", .sampled "discovery.Register (definitions with optional members absent × registration/retraction presentations with undeterminable signer, missing id/claims)"⟩]),
+  ("discovery/module.go:Module.verifyRegistration", [
+    ⟨"nilcheck:presentation.ID == nil", .sampled "discovery.Register (definitions with optional members absent × registration/retraction presentations with undeterminable signer, missing id/claims)"⟩,
+    ⟨"lencheck:len(definition.DIDMethods) > 0", .sampled "discovery.Register (definitions with optional members absent × registration/retraction presentations with undeterminable signer, missing id/claims)"⟩]),
+  ("discovery/module.go:Module.validateRegistration", [
+    ⟨"range:presentation.VerifiableCredential", .sampled "discovery.Register (definitions with optional members absent × registration/retraction presentations with undeterminable signer, missing id/claims)"⟩,
+    ⟨"nilcheck:cred.ID == nil", .sampled "discovery.Register (definitions with optional members absent × registration/retraction presentations with undeterminable signer, missing id/claims)"⟩,
+    ⟨"range:presentation.VerifiableCredential", .sampled "discovery.Register (definitions with optional members absent × registration/retraction presentations with undeterminable signer, missing id/claims)"⟩,
+    ⟨"nilcheck:cred.ExpirationDate != nil", .sampled "discovery.Register (definitions with optional members absent × registration/retraction presentations with undeterminable signer, missing id/claims)"⟩,
+    ⟨"deref:*cred.ExpirationDate", .sampled "discovery.Register (definitions with optional members absent × registration/retraction presentations with undeterminable signer, missing id/claims)"⟩,
+    ⟨"range:presentation.VerifiableCredential", .sampled "discovery.Register (definitions with optional members absent × registration/retraction presentations with undeterminable signer, missing id/claims)"⟩]),
+  ("discovery/module.go:Module.validateRetraction", [
+    ⟨"lencheck:len(presentation.VerifiableCredential) > 0", .sampled "discovery.Register (definitions with optional members absent × registration/retraction presentations with undeterminable signer, missing id/claims)"⟩,
+    ⟨"discard:presentation.JWT().Get(\"retract_jti\")", .sampled "discovery.Register (definitions with optional members absent × registration/retraction presentations with undeterminable signer, missing id/claims)"⟩,
+    ⟨"assertok:retractJTIRaw.(string)", .sampled "discovery.Register (definitions with optional members absent × registration/retraction presentations with undeterminable signer, missing id/claims)"⟩,
+    ⟨"discard:credential.PresentationSigner(presentation)", .sampled "discovery.Register (definitions with optional members absent × registration/retraction presentations with undeterminable signer, missing id/claims)"⟩]),
+  ("discovery/client.go:clientUpdater.updateService", [
+    ⟨"range:presentations", .sampled "discovery.client.updateService (lists a remote Discovery Server returns)"⟩,
+    ⟨"nilcheck:presentation.ID == nil", .sampled "discovery.client.updateService (lists a remote Discovery Server returns)"⟩,
+    ⟨"deref:*record", .sampled "discovery.client.updateService (lists a remote Discovery Server returns)"⟩]),
+  ("discovery/store.go:storePresentation", [
+    ⟨"range:presentation.VerifiableCredential", .sampled "discovery.client.updateService / discovery.Register"⟩,
+    ⟨"nilcheck:verifiableCredential.ID == nil", .sampled "discovery.client.updateService / discovery.Register"⟩]),
+  ("http/client/client.go:StrictHTTPClient.WithRedirectCheck", [
+    ⟨"deref:*s.client", .sampled "httpclient.fetch (stalling servers × every constructor and its WithRedirectCheck copy)"⟩]),
+  ("http/client/client.go:StrictHTTPClient.Do", [
+    ⟨"nilcheck:result.Body != nil", .sampled "httpclient.fetch (stalling servers × every constructor and its WithRedirectCheck copy)"⟩,
+    ⟨"rec:s.client.Do", .sampled "httpclient.fetch (stalling servers × every constructor and its WithRedirectCheck copy)"⟩]),
   ("vcr/revocation/statuslist2021_verifier.go:StatusList2021.Verify", [
     ⟨"nilcheck:credentialToVerify.CredentialStatus == nil", .total "no status, nothing to verify"⟩,
     ⟨"range:statuses", .total "bounded loop (model: verifyEntries)"⟩]),
@@ -429,8 +462,8 @@ def expected : List (String × List Entry) := [
     ⟨"lit:verificationMethodValidator{}", .sampled "didnuts.validate+findKeyByThumbprint"⟩,
     ⟨"lit:basicServiceValidator{}", .sampled "didnuts.validate+findKeyByThumbprint"⟩]),
   ("vdr/resolver/nullentries.go:RejectNullKeyEntries", [
-    ⟨"range:didDocumentKeyMembers", .sampled "didweb.Resolve / didnuts.validate+findKeyByThumbprint"⟩,
-    ⟨"index:members[name]", .sampled "didweb.Resolve / didnuts.validate+findKeyByThumbprint"⟩,
+    ⟨"for:decoder.More()", .sampled "didweb.Resolve / didnuts.validate+findKeyByThumbprint"⟩,
+    ⟨"assertok:nameToken.(string)", .sampled "didweb.Resolve / didnuts.validate+findKeyByThumbprint"⟩,
     ⟨"range:entries", .sampled "didweb.Resolve / didnuts.validate+findKeyByThumbprint"⟩]),
   ("network/transport/v2/handlers.go:protocol.Handle", [
     ⟨"assert:raw.(*Envelope)", .sampled "v2.Handle"⟩,
